@@ -1,6 +1,6 @@
 """C03 — a cluster start without UNSAFE_TO_BREAK is a safe place to break the text."""
 import os
-import vlib, bufgen
+import vlib, bufgen, gsubgen
 import flagslib as F
 
 MODULE = "RbModel.Props.C03"
@@ -101,13 +101,24 @@ def interior_search(ctx, shim, r, n):
 # ------------------------------------------------------------------------------------------------
 # shape level: HarfBuzz's verifier (cut at all unflagged cluster starts, re-shape, concatenate, compare)
 
-def metamorphic_search(ctx, shim, r, per_font, pc, pt, only_aat, name, verifier, flag_words, what, rule, fonts=None, kind="break"):
-    """shared driver of the break-safety (C03) and concat-redistribution (C04) experiments"""
-    fs = F.FontSet(r, limit=fonts, only_aat=only_aat)
+def metamorphic_search(ctx, shim, r, per_font, pc, pt, only_aat, name, verifier, flag_words, what, rule, fonts=None, kind="break",
+                       groups=None, make=None, classify=None):
+    """shared driver of the break-safety (C03) and concat-redistribution (C04) experiments.
+    groups / make / classify: font groups, shaping generator and finding-class function of a stream that does not draw
+    from the corpus (synthetic fonts: F.synth_groups, F.make_synth_shaping, F.synth_known_class)"""
+    if groups is None:
+        groups = F.FontSet(r, limit=fonts, only_aat=only_aat).groups
+    classify = classify or F.known_class
+
+    class fs: pass
+    fs.groups = groups
     sh = []
     for g in fs.groups:
         for k in range(per_font):
-            sh.append(F.make_shaping(r, g, r.choice(flag_words), repeats=(k % 8 == 7)))
+            if make:
+                sh.append(make(r, g, r.choice(flag_words), k))
+            else:
+                sh.append(F.make_shaping(r, g, r.choice(flag_words), repeats=(k % 8 == 7)))
     res = verifier(shim, sh)
     stat, bad, known = {}, [], {}
     cuts = 0
@@ -116,7 +127,7 @@ def metamorphic_search(ctx, shim, r, per_font, pc, pt, only_aat, name, verifier,
         if o["status"] in ("ok", "DIFF"):
             cuts += len(o["pieces"]) - 1
         if o["status"] == "DIFF":
-            cls = F.known_class(s, kind)
+            cls = classify(s, kind)
             if cls: known.setdefault(cls, []).append((len(s.text), s, o))
             else: bad.append((len(s.text), s, o))
         elif o["status"] in ("noresult", "piecefail"):
@@ -129,6 +140,8 @@ def metamorphic_search(ctx, shim, r, per_font, pc, pt, only_aat, name, verifier,
         if o["status"] == "DIFF":
             s, o = F.shrink(shim, s, verifier)
         rp = s.describe()
+        if s.g.get("synthetic"):
+            rp.update({"font_recipe": s.g["recipe"], "font_profile": s.g["profile"]})
         rp.update({"stage": "search", "stream": name, "pieces_text_ranges": o.get("pieces"),
                    "piece_requests": o.get("piece_requests"), "whole": F.fmt_glyphs(o.get("whole") or []),
                    "pieces_reassembled": F.fmt_glyphs(o.get("recon") or []), "difference": o.get("diff")})
@@ -170,10 +183,118 @@ def break_search(ctx, shim, r, per_font, pc, pt, only_aat, name, fonts=None):
                        ("AAT fonts (morx/kerx present): " if only_aat else "OpenType path: ") + BREAK_RULE, fonts)
 
 
+SYNTH_RULE = ("synthetic GSUB fonts (tools/flagslib.py::synth_recipe: 3-6 letters of Latin / Hebrew / private-use, i.e. both native "
+              "directions; contextual lookups of types 5 and 6, formats 1-3, with backtrack / lookahead, lookup flags over a random GDEF; "
+              "nested and stand-alone leaf lookups: single, multiple, DELETION = MultipleSubst to the empty sequence, in 1 font of 8 "
+              "ligatures) x random texts over the letters x directions l, r, t, b (so also reversed buffers with descending "
+              "clusters) x levels 0/1 x cluster numbering with gaps; ")
+
+
+def synth_make(r, g, flags, k):
+    return F.make_synth_shaping(r, g, flags)
+
+
+def break_synth_search(ctx, shim, r, nfonts, per_font, pc, pt):
+    metamorphic_search(ctx, shim, r, per_font, pc, pt, False, "break-safety-synth", F.verify_break, [0, 0, pc, pc | pt],
+                       "breaking at unflagged cluster starts changes the result",
+                       SYNTH_RULE + "then as break-safety-ot: cut at ALL unflagged cluster starts, re-shape the pieces, concatenate, compare",
+                       groups=F.synth_groups(r, nfonts), make=synth_make, classify=F.synth_known_class)
+
+
+def break_fraction_search(ctx, shim, r, nfonts, per_font, pc, pt):
+    metamorphic_search(ctx, shim, r, per_font, pc, pt, False, "break-fraction", F.verify_break, [0, 0, pc],
+                       "breaking at unflagged cluster starts changes the result",
+                       "fonts with fraction features (synthetic frac / numr / dnom fonts over Latin / Hebrew + the fonts under tests/fonts that "
+                       "name such a feature) x texts of digit runs, U+2044 FRACTION SLASH, letters, spaces x directions l, r, t, b x levels "
+                       "0/1; then as break-safety-ot",
+                       groups=F.fraction_groups(r, nfonts), make=lambda r, g, fl, k: F.make_fraction_shaping(r, g, fl),
+                       classify=F.fraction_known_class)
+
+
+def gsub_flag_groups(ctx, shim, r, nfonts, per_font):
+    """request groups of the `gsub` command (the GSUB interpreter of the crate through its hook vs the Lean model Gsub.lean,
+    which contains every unsafe_to_break / unsafe_to_concat call site of the interpreter and delete_glyph / merge_clusters of
+    Buf.lean) on the synthetic fonts of the metamorphic streams, with buffers as the pipeline hands them over in BOTH orders:
+    ascending clusters and — text shaped against the script's direction — descending clusters; flag bits of earlier
+    passes already in some masks; PRODUCE_UNSAFE_TO_CONCAT mostly on."""
+    import fontbuild
+    fonts, g1 = [], []
+    i = 0
+    while len(fonts) < nfonts:
+        rec, _, _ = F.synth_recipe(r, F.SYNTH_PROFILES[i % len(F.SYNTH_PROFILES)])
+        i += 1
+        try:
+            hexf = fontbuild.hexfont(rec)
+        except fontbuild.FontBuildError:
+            continue
+        fid = f"GF{len(fonts)}"
+        fonts.append((fid, rec, hexf))
+        g1.append([f"font {fid} {hexf}", f"planinfo {fid} l DFLT - -"])
+    o1 = vlib.run_groups(shim, g1)
+    groups = []
+    for (fid, rec, hexf), o in zip(fonts, o1):
+        if o[0] != "ok" or not o[1].startswith("ok"):
+            continue
+        maps = o[1].split()[1]
+        if maps == "-":
+            mt = "0"
+        else:
+            ms = [m.split(":") for m in maps.split(",")]
+            mt = str(len(ms)) + " " + " ".join(" ".join(m[1:]) for m in ms)
+        ft = gsubgen.flatten(rec)
+        lines = [f"font {fid} {hexf}"]
+        for _ in range(per_font):
+            st = gsubgen.rand_buffer(r, rec)
+            n = st["n"]
+            items = st["I"][:n]
+            cl = [x[2] for x in items]
+            if r.chance(1, 2):
+                cl = cl[::-1]                                   # descending: the reversed buffer
+            fl = [r.choice([0, 0, 0, 1, 2, 3]) for _ in items]
+            st["I"] = [(g, (m & 0xFFFFFFF8) | f, c, a, b) for (g, m, _, a, b), c, f in zip(items, cl, fl)] + st["I"][n:]
+            st["F"] = r.choice([0, 0x40, 0x40, 0x40])
+            st["sc"] = 0x20 if any(fl) else 0
+            lines.append(f"gsub {fid} l DFLT - - 1 FONT {ft} MAPS {mt} BUF {bufgen.state_str(st)}")
+        groups.append(lines)
+    return groups
+
+
+def carry_search(ctx, shim, r, n, pc, pt):
+    """the flag-preservation contract of delete_glyph / delete_glyphs_inplace / merges as an oracle on the crate alone"""
+    lines = [F.carry_walk(r, pc, pt) for _ in range(n)]
+    outs = vlib.run_lines(shim, lines)
+    bad, dist = [], {}
+    for ln, o in zip(lines, outs):
+        d, seen = F.carry_eval(ln, o)
+        for k, v in seen.items():
+            dist[k] = dist.get(k, 0) + v
+        if d:
+            bad.append((len(ln), ln, d, o))
+    bad.sort()
+    for _, ln, d, o in bad[:3]:
+        ctx.violation(f"a cluster primitive does not hand the glyph flags on as its contract says: {d} ({len(bad)} of {len(lines)} walks)",
+                      {"stage": "search", "stream": "carry-exact", "request": ln, "what_differs": d, "observed": o[-1500:]})
+    ctx.note_search("carry-exact", len(lines), dist.get("del:backward", 0) + dist.get("delin:backward", 0), distribution=dist,
+                    deviations=len(bad),
+                    rule="random buffers whose masks already carry glyph flags (all 8 values of the DEFINED bits), ascending / descending / "
+                         "unordered clusters, levels 0-2; in/out walks of next / del / repl / repls / copy / merge / mergeout / utbo, or "
+                         "in-place merge / utb then delete_glyphs_inplace, through the hook; oracle (C03_delete_*): a glyph deleted alone in "
+                         "its cluster c after a kept glyph of cluster p > c -> the trailing run of p is renamed c and carries exactly the "
+                         "deleted glyph's flags; cluster survives / p < c -> nothing else changes; forward merge and merges: unchanged "
+                         "cluster => unchanged mask, renamed => non-flag bits kept (merges: no flags); non-trivial = backward case hit")
+
+
 def run(ctx):
     ctx.assumptions += [
         "theorems are about the Lean model of the flag setters of buffer.rs (_set_glyph_flags, _infos_find_min_cluster, "
-        "_infos_set_glyph_flags) and of propagate_flags; tied to the crate by the flags-prims correspondence stream",
+        "_infos_set_glyph_flags), of propagate_flags, and of the primitives that rename glyphs (set_cluster, delete_glyph, "
+        "merge_clusters, merge_out_clusters: which flags a renamed glyph carries); tied to the crate by the flags-prims and "
+        "flags-carry correspondence streams and, for the call sites inside the GSUB interpreter, by gsub-flags (Gsub.lean)",
+        "delete_glyphs_inplace has no theorem: its flag contract is the carry-exact oracle + flags-carry correspondence",
+        "synthetic-font streams: DIFFs in fonts that can produce a multi-glyph sequence or run a nested lookup after a deleting "
+        "one are attributed to the finding classes deleted-flag-carrier / nested-delete-drift from the recipe alone "
+        "(over-approximation: a new defect that shows only in such fonts would be reported under that class); 6 fonts in 10 "
+        "are outside both classes",
         "that every shaping step which makes two clusters interdependent calls unsafe_to_break over a span covering what it "
         "inspected (the ~40 call sites) is not proved; it is searched by the break-safety verifier through shape() "
         "(partial, as DESIGN.md §5 C03 says); OpenType and AAT fonts are separate streams",
@@ -188,14 +309,23 @@ def run(ctx):
                    lines=[F.flag_walk(r, pc, pt, adversarial=True) for _ in range(ctx.budget(10000, 200000))]
                          + [interior_case(r)[0] for _ in range(ctx.budget(10000, 200000))],
                    classify=F.classify_walk, canon=F.canon_panic)
+    rc = ctx.rng("carry")
+    ctx.correspond("flags-carry", lines=[F.carry_walk(rc, pc, pt) for _ in range(ctx.budget(10000, 200000))],
+                   classify=F.classify_walk, canon=F.canon_panic)
+    import C06 as C06mod
+    ctx.correspond("gsub-flags", groups=gsub_flag_groups(ctx, shim, ctx.rng("gsub-flags"), ctx.budget(150, 3000), 10),
+                   classify=C06mod.gsub_classify, canon=F.canon_panic, only=lambda ln: ln.startswith("gsub "))
     interior_search(ctx, shim, ctx.rng("interior"), ctx.budget(20000, 300000))
+    carry_search(ctx, shim, ctx.rng("carry-exact"), ctx.budget(10000, 200000), pc, pt)
+    break_synth_search(ctx, shim, ctx.rng("break-synth"), ctx.budget(200, 4000), 12, pc, pt)
+    break_fraction_search(ctx, shim, ctx.rng("break-fraction"), ctx.budget(20, 300), ctx.budget(20, 60), pc, pt)
     break_search(ctx, shim, ctx.rng("break-ot"), ctx.budget(60, 1200), pc, pt, False, "break-safety-ot")
     break_search(ctx, shim, ctx.rng("break-aat"), ctx.budget(150, 4000), pc, pt, True, "break-safety-aat")
 
 
 def replay(ctx, rp):
     shim = vlib.build_harness()
-    if rp.get("stream", "").startswith("break-safety"):
+    if rp.get("stream", "").startswith("break-"):
         s = F.shaping_from_replay(rp)
         o = F.verify_break(shim, [s])[0]
         print("request:", s.line)
@@ -204,6 +334,11 @@ def replay(ctx, rp):
         print("pieces :", F.fmt_glyphs(o.get("recon") or []))
         print("difference:", o.get("diff"))
         return 1 if o["status"] in ("DIFF", "piecefail", "noresult") else 0
+    if rp.get("stream") == "carry-exact":
+        o = vlib.run_lines(shim, [rp["request"]], nproc=1)[0]
+        d = F.carry_eval(rp["request"], o)[0]
+        print("request:", rp["request"]); print("reply  :", o[-1500:]); print("deviation:", d)
+        return 1 if d else 0
     if rp.get("stream") == "interior-exact":
         o = vlib.run_lines(shim, [rp["request"]], nproc=1)[0]
         d = interior_eval(rp["request"], o)[0]
